@@ -418,7 +418,10 @@ pub(crate) fn add_int_permutation<W, R, T>(
                 i /= n-j;
             }
             ret.reverse();
+            // quadratic in k: every pass over the prefix is a step of the search budget
+            let mut search = rt.limits.search_iter();
             for t0 in (1..k).rev(){
+                search.next().unwrap()?;
                 for t1 in (0..t0).rev(){
                     if ret[t1] <= ret[t0]{
                         ret[t0] += 1;
